@@ -427,10 +427,6 @@ func runScenario(t *rapid.T, sc *scenario) string {
 		}
 		ev.Label("gen:struct_holds_values_of_an_earlier_round")
 	}
-	fs, err := config.NewFlagSet(ptr.Interface())
-	if err != nil {
-		return "NewFlagSet: " + err.Error()
-	}
 	// environment
 	var setEnv []string
 	defer func() {
@@ -438,6 +434,31 @@ func runScenario(t *rapid.T, sc *scenario) string {
 			os.Unsetenv(k)
 		}
 	}()
+	var stale []string
+	if rapid.IntRange(0, 2).Draw(t, "environmentChangesBeforeParse") == 0 {
+		// the environment the FlagSet is created in is not the one Parse() runs in: a program that builds its FlagSet
+		// early (package initialisation) and loads a .env file, or drops variables, before it parses. The sources are
+		// read by Parse; what a variable held earlier is not a source.
+		for _, f := range sc.fields {
+			if rapid.Bool().Draw(t, "staleVariable") {
+				os.Setenv(f.envName, text(f.kind, genValue(f.kind, false, "").Draw(t, "staleValue")))
+				stale = append(stale, f.envName)
+			}
+		}
+		if rapid.Bool().Draw(t, "staleConfigB64") {
+			os.Setenv("CFG_CONFIG_B64", base64.StdEncoding.EncodeToString(sc.jsonDoc(true, t)))
+			stale = append(stale, "CFG_CONFIG_B64")
+		}
+		setEnv = append(setEnv, stale...)
+		ev.Label("gen:environment_changed_between_NewFlagSet_and_Parse")
+	}
+	fs, err := config.NewFlagSet(ptr.Interface())
+	if err != nil {
+		return "NewFlagSet: " + err.Error()
+	}
+	for _, k := range stale {
+		os.Unsetenv(k)
+	}
 	for _, f := range sc.fields {
 		flg := fs.Lookup(f.flagName)
 		if flg == nil {
